@@ -7,7 +7,7 @@
                                `Node.get_main_position` (current and pre-d6b0d4f versions)
     giscanner/message.py       `Position.__eq__/__hash__` (is_typedef is NOT part of the identity)
     giscanner/transformer.py   `parse`, `_create_typedef_compound`, `_create_tag_ns_compound`,
-                               `_append_new_node` (the tag namespace), `_parse_include`,
+                               `_append_new_node` (the tag namespace), `_parse_include` (current and pre-5d8d03e),
                                `_split_c_string_for_namespace_matches`, `_resolve_type_from_ctype`
     giscanner/annotationparser.py `parse_comment_blocks` (the block dictionary)
 
@@ -405,15 +405,26 @@ structure DepNs where
   ctypes : List (Str × Str)        -- Namespace.ctypes: C type -> node name
   deriving DecidableEq, Repr
 
-/-- `Transformer._parse_include` as far as `_parsed_includes` is concerned: post-order walk;
-    `iter n` is the order in which Python happens to iterate the `includes` SET of namespace `n`.
+/-- the recursion of `Transformer._parse_include` as far as `_parsed_includes` is concerned:
+    post-order walk; `incs n` is the list the `for include in ...` loop of namespace `n` runs over,
+    `(name, version)` pairs; `if include.name not in self._parsed_includes` looks at the name only.
     Returns the keys of `_parsed_includes` in dict order. -/
-def parseInclude (iter : Str → List Str) : Nat → List Str → Str → List Str
+def parseIncludeOver (incs : Str → List (Str × Str)) : Nat → List Str → Str → List Str
   | 0, parsed, _ => parsed
   | fuel + 1, parsed, n =>
-    let parsed := (iter n).foldl
-      (fun acc i => if acc.contains i then acc else parseInclude iter fuel acc i) parsed
+    let parsed := (incs n).foldl
+      (fun acc i => if acc.contains i.1 then acc else parseIncludeOver incs fuel acc i.1) parsed
     if parsed.contains n then parsed else parsed ++ [n]
+
+/-- `Transformer._parse_include` (since 5d8d03e): `for include in sorted(namespace.includes)`.
+    `iter n` is the order in which Python happens to iterate the `includes` SET of namespace `n`;
+    the loop runs over `sorted(...)` of it (`Include._compare`: by name, then version). -/
+def parseInclude (iter : Str → List (Str × Str)) : Nat → List Str → Str → List Str :=
+  parseIncludeOver (fun n => sortedIncludes (iter n))
+
+/-- the version before 5d8d03e: the loop ran over the set in iteration order -/
+def parseIncludeOld (iter : Str → List (Str × Str)) : Nat → List Str → Str → List Str :=
+  parseIncludeOver iter
 
 /-- one entry of `matches` in `_split_c_string_for_namespace_matches(ident, is_identifier=True)`:
     the first prefix of the namespace the identifier starts with -/
